@@ -1,186 +1,183 @@
 import Capella.Lemmas.Decl
 /-!
-Lemmas about the `decl.apply` machine, part 2: conservation of effects for create/extend documents.
+Lemmas about the `decl.apply` machine, part 2: the create/extend fragment.
 
-For a fixed map `pm` from promise ids to object ids, every piece of pending syntax has a multiset of
-*effects* it will cause: objects created (`obj id cls`), list memberships added (`edge owner attr member`),
-promises bound (`bind p id`). The effects already caused are visible in the state (`g.objs`, `g.edges`, `ps`).
-Invariant: done + pending is constant along a run, as long as `ps` agrees with `pm`.
+* `Item.all P` — a predicate on every object description / list entry of a piece of syntax, nested ones
+  included; `State.all P Q` — on everything pending in a state (agenda, queue, deferred entries), which at
+  the same time pins the state to the create/extend fragment (no `set`/`sync`/`delete` work).
+* `CEStep mm s s'` — the transitions of the fragment, named (pop an entry; defer it under the first
+  unresolved promise; append a reference; create an object, bind its promise id and re-queue what waited
+  for it; expand an instruction).  `step_ceStep`: on a state of the fragment `step` is one of them.
+  All invariants of create/extend runs are proved by cases on `CEStep`.
 -/
 namespace Capella.Decl
 
-inductive Eff
-  | bind (p : Str) (i : Id)
-  | edge (o : Id) (a : Str) (m : Id)
-  | obj (i : Id) (c : Str)
-  | use (p : Str)
-  deriving DecidableEq
-
-def atomId (pm : Str → Option Id) : Atom → Option Id
-  | .str _ => none
-  | .promise p => pm p
-  | .uuid i => some i
-  | .obj i => some i
-
-def valId (pm : Str → Option Id) : Val → Option Id
-  | .atom a => atomId pm a
-  | .find _ _ => none
-
-def atomUse (F : Eff → Nat) : Atom → Nat
-  | .promise p => F (.use p)
-  | _ => 0
-
-def keysUse (F : Eff → Nat) : List (Str × Atom) → Nat
-  | [] => 0
-  | (_, a) :: t => atomUse F a + keysUse F t
-
-def valUse (F : Eff → Nat) : Val → Nat
-  | .atom a => atomUse F a
-  | .find _ keys => keysUse F keys
-
-def scalUse (F : Eff → Nat) : List (Str × Val) → Nat
-  | [] => 0
-  | (_, v) :: t => valUse F v + scalUse F t
-
-/-- the weight ignores uses of promises that are already bound -/
-def Quiet (F : Eff → Nat) (ps : Promises) : Prop := ∀ p i, ps.lookup p = some i → F (.use p) = 0
-
-/-- bindings are only ever added -/
-def Grows (ps ps' : Promises) : Prop := ∀ p i, ps.lookup p = some i → ps'.lookup p = some i
-
-def optEff (F : Eff → Nat) (pid : Option Str) (nid : Id) : Nat :=
-  match pid with
-  | none => 0
-  | some p => F (.bind p nid)
+/-! ## syntax predicates -/
 
 mutual
-def Item.effN (dflt : List (Str × Str)) (pm : Str → Option Id) (F : Eff → Nat) (par : Id) (attr : Str) : Item → Nat
-  | .obj nid pid ty scal kids =>
-    F (.obj nid (classFor dflt attr ty)) + F (.edge par attr nid) + optEff F pid nid + scalUse F scal +
-      kidsEffN dflt pm F nid kids
-  | .ref v => valUse F v + match valId pm v with
-    | some m => F (.edge par attr m)
-    | none => 0
-def kidsEffN (dflt : List (Str × Str)) (pm : Str → Option Id) (F : Eff → Nat) (par : Id) : List (Str × List Item) → Nat
-  | [] => 0
-  | (a, l) :: t => itemsEffN dflt pm F par a l + kidsEffN dflt pm F par t
-def itemsEffN (dflt : List (Str × Str)) (pm : Str → Option Id) (F : Eff → Nat) (par : Id) (attr : Str) : List Item → Nat
-  | [] => 0
-  | x :: t => x.effN dflt pm F par attr + itemsEffN dflt pm F par attr t
+/-- `P` holds for the entry and for every entry nested below it -/
+def Item.all (P : Item → Prop) : Item → Prop
+  | .obj nid pid ty scal kids => P (.obj nid pid ty scal kids) ∧ kidsAll P kids
+  | .ref v => P (.ref v)
+  | .str n s => P (.str n s)
+def kidsAll (P : Item → Prop) : List (Str × List Item) → Prop
+  | [] => True
+  | (_, l) :: t => itemsAll P l ∧ kidsAll P t
+def itemsAll (P : Item → Prop) : List Item → Prop
+  | [] => True
+  | x :: t => x.all P ∧ itemsAll P t
 end
 
-def Instr.effN (dflt : List (Str × Str)) (pm : Str → Option Id) (F : Eff → Nat) (i : Instr) : Nat :=
-  valUse F i.parent + kidsEffN dflt pm F ((valId pm i.parent).getD 0) i.create +
-    kidsEffN dflt pm F ((valId pm i.parent).getD 0) i.ext
+/-- a create/extend instruction: head predicate `Q`, `P` on all entries, no other operator -/
+def Instr.all (P : Item → Prop) (Q : Instr → Prop) (i : Instr) : Prop :=
+  Q i ∧ kidsAll P i.create ∧ kidsAll P i.ext ∧ i.set = [] ∧ i.sync = [] ∧ i.del = []
 
-def Action.effN (dflt : List (Str × Str)) (pm : Str → Option Id) (F : Eff → Nat) : Action → Nat
-  | .whole i => i.effN dflt pm F
-  | .piece par (.item attr x) => x.effN dflt pm F par attr
-  | .piece _ _ => 0
-
-def Work.effN (dflt : List (Str × Str)) (pm : Str → Option Id) (F : Eff → Nat) : Work → Nat
-  | .items par attr l => itemsEffN dflt pm F par attr l
-  | _ => 0
-
-def State.pendN (dflt : List (Str × Str)) (pm : Str → Option Id) (F : Eff → Nat) (s : State) : Nat :=
-  sumBy (Work.effN dflt pm F) s.agenda + sumBy (Action.effN dflt pm F) s.queue +
-    sumBy (fun e => e.2.effN dflt pm F) s.deferred
-
-def State.doneN (F : Eff → Nat) (s : State) : Nat :=
-  sumBy (fun e => F (.bind e.1 e.2)) s.ps + sumBy (fun e => F (.edge e.1 e.2.1 e.2.2)) s.g.edges +
-    sumBy (fun e => F (.obj e.1 e.2)) s.g.objs
-
-/-! the create/extend fragment: reference entries and parents are atoms, no set/sync/delete -/
-
-/-- `pm` sends the promise id of a site to the id of that site -/
-def pidOK (st : Prop) (pm : Str → Option Id) (pid : Option Str) (nid : Id) : Prop :=
-  st → ∀ p, pid = some p → pm p = some nid
-
-mutual
-def Item.ce (st : Prop) (pm : Str → Option Id) : Item → Prop
-  | .obj nid pid _ _ kids => pidOK st pm pid nid ∧ kidsCe st pm kids
-  | .ref v => ∃ a, v = .atom a
-def kidsCe (st : Prop) (pm : Str → Option Id) : List (Str × List Item) → Prop
-  | [] => True
-  | (_, l) :: t => itemsCe st pm l ∧ kidsCe st pm t
-def itemsCe (st : Prop) (pm : Str → Option Id) : List Item → Prop
-  | [] => True
-  | x :: t => x.ce st pm ∧ itemsCe st pm t
-end
-
-def Instr.ce (st : Prop) (pm : Str → Option Id) (i : Instr) : Prop :=
-  (∃ a, i.parent = .atom a) ∧ kidsCe st pm i.create ∧ kidsCe st pm i.ext ∧ i.set = [] ∧ i.sync = [] ∧ i.del = []
-
-def Action.ce (st : Prop) (pm : Str → Option Id) : Action → Prop
-  | .whole i => i.ce st pm
-  | .piece _ (.item _ x) => x.ce st pm
+def Action.all (P : Item → Prop) (Q : Instr → Prop) : Action → Prop
+  | .whole i => i.all P Q
+  | .piece _ (.item _ x) => x.all P
   | .piece _ _ => False
 
-def Work.ce (st : Prop) (pm : Str → Option Id) : Work → Prop
-  | .items _ _ l => itemsCe st pm l
+def Work.all (P : Item → Prop) : Work → Prop
+  | .items _ _ l => itemsAll P l
   | .sets _ l => l = []
   | _ => False
 
-def State.ce (st : Prop) (pm : Str → Option Id) (s : State) : Prop :=
-  (∀ w ∈ s.agenda, w.ce st pm) ∧ (∀ a ∈ s.queue, a.ce st pm) ∧ (∀ e ∈ s.deferred, e.2.ce st pm)
+def State.all (P : Item → Prop) (Q : Instr → Prop) (s : State) : Prop :=
+  (∀ w ∈ s.agenda, w.all P) ∧ (∀ a ∈ s.queue, a.all P Q) ∧ (∀ e ∈ s.deferred, e.2.all P Q)
 
-/-- `ps` agrees with `pm` -/
-def Agrees (st : Prop) (ps : Promises) (pm : Str → Option Id) : Prop :=
-  st → ∀ p i, ps.lookup p = some i → pm p = some i
-
-/-- the weight ignores list memberships -/
-def EdgeBlind (F : Eff → Nat) : Prop := ∀ o a m, F (.edge o a m) = 0
-
-theorem kidsEffN_eq (dflt pm F) (par : Id) (kids : List (Str × List Item)) :
-    sumBy (Work.effN dflt pm F) (kids.map (fun kl => Work.items par kl.1 kl.2)) = kidsEffN dflt pm F par kids := by
-  induction kids with
-  | nil => simp [sumBy, kidsEffN]
-  | cons x t ih => obtain ⟨k, l⟩ := x; simp [sumBy, kidsEffN, Work.effN, ih] at *
-
-theorem kidsCe_works (st pm) (par : Id) (kids : List (Str × List Item)) (h : kidsCe st pm kids) :
-    ∀ w ∈ kids.map (fun kl => Work.items par kl.1 kl.2), w.ce st pm := by
-  induction kids with
-  | nil => simp
-  | cons x t ih =>
-    obtain ⟨k, l⟩ := x
-    simp only [kidsCe] at h
+theorem kidsAll_works {P : Item → Prop} (par : Id) : ∀ (kids : List (Str × List Item)), kidsAll P kids →
+    ∀ w ∈ kids.map (fun kl => Work.items par kl.1 kl.2), w.all P
+  | [], _ => by simp
+  | (k, l) :: t, h => by
+    simp only [kidsAll] at h
     intro w hw
     simp only [List.map_cons, List.mem_cons] at hw
     rcases hw with rfl | hw
     · exact h.1
-    · exact ih h.2 w hw
+    · exact kidsAll_works par t h.2 w hw
 
-theorem resolveAtom_id {ps g pm a i} (hag : Agrees True ps pm) (h : resolveAtom ps g a = .ok (.obj i)) :
-    atomId pm a = some i := by
+theorem works_kidsAll {P : Item → Prop} (par : Id) : ∀ (kids : List (Str × List Item)),
+    (∀ w ∈ kids.map (fun kl => Work.items par kl.1 kl.2), w.all P) → kidsAll P kids
+  | [], _ => trivial
+  | (k, l) :: t, h => by
+    simp only [kidsAll]
+    refine ⟨h (Work.items par k l) (by simp), works_kidsAll par t (fun w hw => h w ?_)⟩
+    simp only [List.map_cons, List.mem_cons]
+    exact Or.inr hw
+
+theorem worksOf_all {P : Item → Prop} {Q : Instr → Prop} (par : Id) (i : Instr) (h : i.all P Q) :
+    ∀ w ∈ worksOf par i, w.all P := by
+  obtain ⟨_, h1, h2, h3, h4, h5⟩ := h
+  intro w hw
+  simp only [worksOf, h3, h4, h5, List.map_nil, List.append_nil, List.mem_append, List.mem_singleton] at hw
+  rcases hw with (hw | hw) | rfl
+  · exact kidsAll_works par _ h1 w hw
+  · exact kidsAll_works par _ h2 w hw
+  · rfl
+
+theorem all_of_worksOf {P : Item → Prop} {Q : Instr → Prop} (par : Id) (i : Instr) (hq : Q i)
+    (h3 : i.set = []) (h4 : i.sync = []) (h5 : i.del = []) (h : ∀ w ∈ worksOf par i, w.all P) : i.all P Q := by
+  refine ⟨hq, works_kidsAll par _ (fun w hw => h w ?_), works_kidsAll par _ (fun w hw => h w ?_), h3, h4, h5⟩
+  · simp only [worksOf, List.mem_append]; exact Or.inl (Or.inl (Or.inl (Or.inl hw)))
+  · simp only [worksOf, List.mem_append]; exact Or.inl (Or.inl (Or.inl (Or.inr hw)))
+
+/-! ## which promises a value uses; what an entry waits for -/
+
+def keysUsesP (keys : List (Str × Atom)) (p : Str) : Prop := ∃ k, (k, Atom.promise p) ∈ keys
+
+/-- `!promise p` occurs in the value (directly or as a find key) -/
+def Val.usesP : Val → Str → Prop
+  | .atom (.promise q), p => q = p
+  | .atom _, _ => False
+  | .find _ keys, p => keysUsesP keys p
+
+def scalUsesP (scal : List (Str × Val)) (p : Str) : Prop := ∃ kv ∈ scal, kv.2.usesP p
+
+/-- the promises an entry must see bound before it is carried out -/
+def Item.headUses : Item → Str → Prop
+  | .obj _ _ _ scal _, p => scalUsesP scal p
+  | .ref v, p => v.usesP p
+  | .str _ _, _ => False
+
+def Action.headUses : Action → Str → Prop
+  | .whole i, p => i.parent.usesP p
+  | .piece _ (.item _ x), p => x.headUses p
+  | .piece _ _, _ => False
+
+theorem resolveAtom_unres {ps g a p} (h : resolveAtom ps g a = .error (.unres p)) :
+    a = .promise p ∧ ps.lookup p = none := by
   cases a with
   | str s => simp [resolveAtom] at h
-  | promise p =>
+  | promise q =>
     simp only [resolveAtom] at h
     split at h
-    · rename_i j hj; cases h; exact hag trivial _ _ hj
     · cases h
-  | uuid j =>
-    simp only [resolveAtom] at h
+    · rename_i hn; cases h; exact ⟨rfl, hn⟩
+  | uuid i => simp only [resolveAtom] at h; split at h <;> cases h
+  | obj i => simp [resolveAtom] at h
+
+theorem resolveKeys_unres {ps g p} : ∀ {keys}, resolveKeys ps g keys = .error (.unres p) →
+    keysUsesP keys p ∧ ps.lookup p = none
+  | [], h => by simp [resolveKeys] at h
+  | (k, a) :: t, h => by
+    simp only [resolveKeys, bind, Except.bind] at h
     split at h
-    · cases h; rfl
-    · cases h
-  | obj j => simp [resolveAtom] at h; simp [atomId, h]
+    · rename_i e he
+      cases h
+      obtain ⟨rfl, hn⟩ := resolveAtom_unres he
+      exact ⟨⟨k, by simp⟩, hn⟩
+    · split at h
+      · rename_i e he
+        cases h
+        obtain ⟨⟨k', hk'⟩, hn⟩ := resolveKeys_unres he
+        exact ⟨⟨k', List.mem_cons_of_mem _ hk'⟩, hn⟩
+      · cases h
 
-
-theorem resolveAtom_quiet {F ps g a r} (hq : Quiet F ps) (h : resolveAtom ps g a = .ok r) : atomUse F a = 0 := by
-  cases a with
-  | promise p =>
-    simp only [resolveAtom] at h
+theorem resolveVal_unres {ps g v p} (h : resolveVal ps g v = .error (.unres p)) :
+    v.usesP p ∧ ps.lookup p = none := by
+  cases v with
+  | atom a =>
+    obtain ⟨rfl, hn⟩ := resolveAtom_unres (by simpa [resolveVal] using h)
+    exact ⟨rfl, hn⟩
+  | find ty keys =>
+    simp only [resolveVal, resolveFind, bind, Except.bind] at h
     split at h
-    · rename_i j hj; exact hq _ _ hj
-    · cases h
-  | str _ => rfl
-  | uuid _ => rfl
-  | obj _ => rfl
+    · rename_i e he
+      cases h
+      split at he
+      · rename_i e' hk; cases he; exact resolveKeys_unres hk
+      · split at he <;> cases he
+    · split at h <;> cases h
 
-theorem resolveKeys_quiet {F ps g} (hq : Quiet F ps) : ∀ {keys r}, resolveKeys ps g keys = .ok r → keysUse F keys = 0
-  | [], _, _ => rfl
-  | (k, a) :: t, r, h => by
+theorem resolveScal_unres {ps g p} : ∀ {scal}, resolveScal ps g scal = .error (.unres p) →
+    scalUsesP scal p ∧ ps.lookup p = none
+  | [], h => by simp [resolveScal] at h
+  | (k, v) :: t, h => by
+    simp only [resolveScal, bind, Except.bind] at h
+    split at h
+    · rename_i e he
+      cases h
+      obtain ⟨hu, hn⟩ := resolveVal_unres he
+      exact ⟨⟨(k, v), by simp, hu⟩, hn⟩
+    · split at h
+      · rename_i e he
+        cases h
+        obtain ⟨⟨kv, hm, hu⟩, hn⟩ := resolveScal_unres he
+        exact ⟨⟨kv, List.mem_cons_of_mem _ hm, hu⟩, hn⟩
+      · cases h
+
+theorem resolveAtom_bound {ps g a r p} (h : resolveAtom ps g a = .ok r) (hu : a = .promise p) :
+    ∃ i, ps.lookup p = some i := by
+  subst hu
+  simp only [resolveAtom] at h
+  split at h
+  · rename_i i hi; exact ⟨i, hi⟩
+  · cases h
+
+theorem resolveKeys_bound {ps g p} : ∀ {keys r}, resolveKeys ps g keys = .ok r → keysUsesP keys p →
+    ∃ i, ps.lookup p = some i
+  | [], _, _, ⟨k, hk⟩ => by simp at hk
+  | (k, a) :: t, r, h, ⟨k', hk'⟩ => by
     simp only [resolveKeys, bind, Except.bind] at h
     split at h
     · cases h
@@ -188,11 +185,20 @@ theorem resolveKeys_quiet {F ps g} (hq : Quiet F ps) : ∀ {keys r}, resolveKeys
       split at h
       · cases h
       · rename_i r' hr'
-        simp [keysUse, resolveAtom_quiet hq hv, resolveKeys_quiet hq hr']
+        simp only [List.mem_cons, Prod.mk.injEq] at hk'
+        rcases hk' with ⟨_, rfl⟩ | hk'
+        · exact resolveAtom_bound hv rfl
+        · exact resolveKeys_bound hr' ⟨k', hk'⟩
 
-theorem resolveVal_quiet {F ps g v r} (hq : Quiet F ps) (h : resolveVal ps g v = .ok r) : valUse F v = 0 := by
+theorem resolveVal_bound {ps g v r p} (h : resolveVal ps g v = .ok r) (hu : v.usesP p) :
+    ∃ i, ps.lookup p = some i := by
   cases v with
-  | atom a => exact resolveAtom_quiet hq h
+  | atom a =>
+    cases a with
+    | promise q => cases hu; exact resolveAtom_bound (by simpa [resolveVal] using h) rfl
+    | str _ => cases hu
+    | uuid _ => cases hu
+    | obj _ => cases hu
   | find ty keys =>
     simp only [resolveVal, resolveFind, bind, Except.bind] at h
     split at h
@@ -201,11 +207,12 @@ theorem resolveVal_quiet {F ps g v r} (hq : Quiet F ps) (h : resolveVal ps g v =
       split at hx
       · cases hx
       · rename_i rk hrk
-        exact resolveKeys_quiet hq hrk
+        exact resolveKeys_bound hrk hu
 
-theorem resolveScal_quiet {F ps g} (hq : Quiet F ps) : ∀ {scal r}, resolveScal ps g scal = .ok r → scalUse F scal = 0
-  | [], _, _ => rfl
-  | (k, v) :: t, r, h => by
+theorem resolveScal_bound {ps g p} : ∀ {scal r}, resolveScal ps g scal = .ok r → scalUsesP scal p →
+    ∃ i, ps.lookup p = some i
+  | [], _, _, ⟨kv, hm, _⟩ => by simp at hm
+  | (k, v) :: t, r, h, ⟨kv, hm, hu⟩ => by
     simp only [resolveScal, bind, Except.bind] at h
     split at h
     · cases h
@@ -213,302 +220,149 @@ theorem resolveScal_quiet {F ps g} (hq : Quiet F ps) : ∀ {scal r}, resolveScal
       split at h
       · cases h
       · rename_i r' hr'
-        simp [scalUse, resolveVal_quiet hq hv, resolveScal_quiet hq hr']
+        simp only [List.mem_cons] at hm
+        rcases hm with rfl | hm
+        · exact resolveVal_bound hv hu
+        · exact resolveScal_bound hr' ⟨kv, hm, hu⟩
 
-theorem lookup_append_single (ps : Promises) (p q : Str) (i : Id) :
-    (ps ++ [(p, i)]).lookup q = match ps.lookup q with
-      | some j => some j
-      | none => if q == p then some i else none := by
-  induction ps with
-  | nil => simp [List.lookup]; split <;> simp_all
-  | cons x t ih =>
-    obtain ⟨k, v⟩ := x
-    simp only [List.cons_append, List.lookup]
-    split <;> simp_all
+/-! ## the transitions of the fragment -/
 
-theorem fulfil_ce {dflt st pm} {s s' : State} {p : Str} {i : Id} (hs : s.ce st pm) (hag : Agrees st s.ps pm)
-    (hp : st → pm p = some i) (h : s.fulfil p i = .ok s') :
-    s'.ce st pm ∧ Agrees st s'.ps pm ∧ s'.agenda = s.agenda ∧ s'.g = s.g ∧ Grows s.ps s'.ps ∧
-    ∀ F, s'.doneN F + s'.pendN dflt pm F = s.doneN F + s.pendN dflt pm F + F (.bind p i) := by
-  unfold State.fulfil at h
+/-- the entry taken up next (from the running loop of `_create_complex_objects`, or a re-queued
+`{"parent": obj, "extend": {attr: [x]}}`), and the state once it has been popped -/
+inductive Pop (s : State) (par : Id) (attr : Str) (x : Item) : State → Prop
+  | agenda (l rest) (ha : s.agenda = Work.items par attr (x :: l) :: rest) :
+      Pop s par attr x { s with agenda := Work.items par attr l :: rest }
+  | queue (q) (ha : s.agenda = []) (hq : s.queue = Action.piece par (.item attr x) :: q) :
+      Pop s par attr x { s with queue := q }
+
+/-- the syntax whose head a transition consumes -/
+inductive Consumed
+  | nothing
+  | item (x : Item)
+  | instr (i : Instr)
+
+inductive CEStep (mm : MM) (s : State) : Consumed → State → Prop
+  | nil (par attr rest) (ha : s.agenda = Work.items par attr [] :: rest) : CEStep mm s .nothing { s with agenda := rest }
+  | setsNil (par rest) (ha : s.agenda = Work.sets par [] :: rest) : CEStep mm s .nothing { s with agenda := rest }
+  | deferRef (b par attr v p) (hp : Pop s par attr (.ref v) b)
+      (hr : resolveVal b.ps b.g v = .error (.unres p)) :
+      CEStep mm s .nothing (b.defer p (.piece par (.item attr (.ref v))))
+  | deferObj (b par attr nid pid ty scal kids p) (hp : Pop s par attr (.obj nid pid ty scal kids) b)
+      (hr : resolveScal b.ps b.g scal = .error (.unres p)) :
+      CEStep mm s .nothing (b.defer p (.piece par (.item attr (.obj nid pid ty scal kids))))
+  | append (b par attr v i) (hp : Pop s par attr (.ref v) b) (hr : resolveVal b.ps b.g v = .ok (.obj i)) :
+      CEStep mm s (.item (.ref v)) { b with g := b.g.append par attr i }
+  | single (b par attr nid str cr k fx cls) (hp : Pop s par attr (.str nid str) b)
+      (hk : checkTarget mm b.g par attr = .ok (cr, some k, fx))
+      (hc : createClass mm b.g par attr cr fx none = .ok cls) :
+      CEStep mm s (.item (.str nid str)) { b with g := b.g.create par attr nid cls [(k, .str str)] }
+  | create (b par attr nid pid ty scal kids rs cr sg fx cls s2) (hp : Pop s par attr (.obj nid pid ty scal kids) b)
+      (hr : resolveScal b.ps b.g scal = .ok rs)
+      (hk : checkTarget mm b.g par attr = .ok (cr, sg, fx))
+      (hc : createClass mm b.g par attr cr fx ty = .ok cls)
+      (hf : ({ b with g := b.g.create par attr nid cls rs } : State).fulfilOpt pid nid = .ok s2) :
+      CEStep mm s (.item (.obj nid pid ty scal kids)) { s2 with agenda := kids.map (fun kl => Work.items nid kl.1 kl.2) ++ s2.agenda }
+  | deferWhole (i q p) (ha : s.agenda = []) (hq : s.queue = .whole i :: q)
+      (hr : resolveVal s.ps s.g i.parent = .error (.unres p)) :
+      CEStep mm s .nothing (({ s with queue := q } : State).defer p (.whole i))
+  | expand (i q par) (ha : s.agenda = []) (hq : s.queue = .whole i :: q)
+      (hr : resolveVal s.ps s.g i.parent = .ok (.obj par)) :
+      CEStep mm s (.instr i) { s with queue := q, agenda := worksOf par i }
+
+theorem stepItem_ceStep {mm s b s' par attr x} (hp : Pop s par attr x b)
+    (h : stepItem mm b par attr x = .ok s') : ∃ c, CEStep mm s c s' := by
+  unfold stepItem at h
   split at h
   · cases h
-  · rename_i hnone
-    cases h
-    refine ⟨⟨hs.1, ?_, ?_⟩, ?_, rfl, rfl, ?_, ?_⟩
-    · intro a ha
-      simp only [List.mem_append, List.mem_map, List.mem_filter] at ha
-      rcases ha with ha | ⟨e, ⟨he, _⟩, rfl⟩
-      · exact hs.2.1 a ha
-      · exact hs.2.2 e he
-    · intro e he
-      simp only [List.mem_filter] at he
-      exact hs.2.2 e he.1
-    · intro hst q j hq
-      simp only [lookup_append_single] at hq
-      split at hq
-      · rename_i j' hj'; cases hq; exact hag hst _ _ hj'
-      · split at hq
-        · rename_i hqp; cases hq; simp at hqp; subst hqp; exact hp hst
-        · cases hq
-    · intro q j hq
-      simp [lookup_append_single, hq]
-    · intro F
-      have hm := sumBy_filter_split (fun e : Str × Action => e.2.effN dflt pm F) (fun e => e.1 == p) s.deferred
-      simp only [State.doneN, State.pendN, sumBy_append, sumBy_map, sumBy] at *
-      omega
-
-theorem setScals_objs (g : Graph) (i : Id) (sc : List (Str × RVal)) :
-    (g.setScals i sc).objs = g.objs ∧ (g.setScals i sc).edges = g.edges := by
-  induction sc generalizing g with
-  | nil => simp [Graph.setScals]
-  | cons x t ih => obtain ⟨k, v⟩ := x; simp [Graph.setScals, ih, Graph.setScal]
-
-theorem create_objs (g : Graph) (par attr nid cls sc) :
-    (g.create par attr nid cls sc).objs = g.objs ++ [(nid, cls)] ∧
-    (g.create par attr nid cls sc).edges = g.edges ++ [(par, attr, nid)] := by
-  simp [Graph.create, Graph.append, setScals_objs]
-
-/-- conservation needs `ps` to agree with `pm` only where list memberships are counted -/
-theorem stepItem_ce {dflt st pm s s' par attr} {x : Item} (hx : x.ce st pm) (hs : s.ce st pm)
-    (hag : Agrees st s.ps pm) (h : stepItem dflt s par attr x = .ok s') :
-    s'.ce st pm ∧ Agrees st s'.ps pm ∧ Grows s.ps s'.ps ∧
-    ∀ F, (st ∨ EdgeBlind F) → Quiet F s.ps →
-      s'.doneN F + s'.pendN dflt pm F = s.doneN F + s.pendN dflt pm F + x.effN dflt pm F par attr := by
-  have hgrefl : Grows s.ps s.ps := fun _ _ h => h
-  cases x with
-  | ref v =>
-    obtain ⟨a, rfl⟩ := hx
-    simp only [stepItem] at h
-    split at h
-    · cases h
-      refine ⟨⟨hs.1, hs.2.1, ?_⟩, hag, hgrefl, ?_⟩
-      · intro e he
-        simp only [State.defer, List.mem_append, List.mem_singleton] at he
-        rcases he with he | rfl
-        · exact hs.2.2 e he
-        · exact ⟨a, rfl⟩
-      · intro F _ _
-        simp [State.defer, State.doneN, State.pendN, sumBy_append, sumBy, Action.effN]; omega
-    · cases h
-    · rename_i i hi
-      cases h
-      refine ⟨hs, hag, hgrefl, ?_⟩
-      intro F hF hq
-      have hu := resolveVal_quiet hq hi
-      rcases hF with hst | heb
-      · have := resolveAtom_id (fun _ => hag hst) (by simpa [resolveVal] using hi)
-        simp [State.doneN, State.pendN, Graph.append, sumBy_append, sumBy, Item.effN, valId, this, hu]; omega
-      · simp only [State.doneN, State.pendN, Graph.append, sumBy_append, sumBy, Item.effN, heb _ _ _, hu]
-        split <;> omega
-    · cases h
-  | obj nid pid ty scal kids =>
-    simp only [Item.ce] at hx
-    simp only [stepItem] at h
-    split at h
-    · cases h
-      refine ⟨⟨hs.1, hs.2.1, ?_⟩, hag, hgrefl, ?_⟩
-      · intro e he
-        simp only [State.defer, List.mem_append, List.mem_singleton] at he
-        rcases he with he | rfl
-        · exact hs.2.2 e he
-        · simpa [Action.ce, Item.ce] using hx
-      · intro F _ _
-        simp [State.defer, State.doneN, State.pendN, sumBy_append, sumBy, Action.effN]; omega
-    · cases h
-    · rename_i rs hrs
-      have hc := create_objs s.g par attr nid (classFor dflt attr ty) rs
-      cases pid with
-      | none =>
-        simp [State.fulfilOpt, bind, Except.bind, pure, Except.pure] at h
-        cases h
-        refine ⟨⟨?_, hs.2.1, hs.2.2⟩, hag, hgrefl, ?_⟩
-        · intro w hw
-          simp only [List.mem_append] at hw
-          rcases hw with hw | hw
-          · exact kidsCe_works st pm nid kids hx.2 w hw
-          · exact hs.1 w hw
-        · intro F _ hq
-          have hu := resolveScal_quiet hq hrs
-          simp [State.doneN, State.pendN, sumBy_append, sumBy, Item.effN, optEff, kidsEffN_eq, hc.1, hc.2, hu]; omega
-      | some p =>
-        simp only [State.fulfilOpt, bind, Except.bind, pure, Except.pure] at h
+  · rename_i cr sg fx hk
+    cases x with
+    | ref v =>
+      simp only at h
+      split at h
+      · rename_i p hr; cases h; exact ⟨_, .deferRef b par attr v p hp hr⟩
+      · cases h
+      · rename_i i hr; cases h; exact ⟨_, .append b par attr v i hp hr⟩
+      · cases h
+    | str nid str =>
+      simp only at h
+      split at h
+      · cases h
+      · rename_i k
         split at h
         · cases h
-        · rename_i s2 hs2
-          cases h
-          have hs1 : State.ce st pm { s with g := s.g.create par attr nid (classFor dflt attr ty) rs } := hs
-          obtain ⟨hce, hag2, hA, hG, hgr, hF⟩ := fulfil_ce (dflt := dflt) hs1 hag (fun h => hx.1 h p rfl) hs2
-          refine ⟨⟨?_, hce.2.1, hce.2.2⟩, hag2, hgr, ?_⟩
-          · intro w hw
-            simp only [List.mem_append] at hw
-            rcases hw with hw | hw
-            · exact kidsCe_works st pm nid kids hx.2 w hw
-            · exact hce.1 w hw
-          · intro F _ hq
-            have hu := resolveScal_quiet hq hrs
-            have := hF F
-            have hA' : s2.agenda = s.agenda := hA
-            simp [State.doneN, State.pendN, sumBy_append, sumBy, Item.effN, optEff, kidsEffN_eq, hc.1, hc.2, hA', hG, hu] at *
-            omega
+        · rename_i cls hc; cases h; exact ⟨_, .single b par attr nid str cr k fx cls hp hk hc⟩
+    | obj nid pid ty scal kids =>
+      simp only at h
+      split at h
+      · rename_i p hr; cases h; exact ⟨_, .deferObj b par attr nid pid ty scal kids p hp hr⟩
+      · cases h
+      · rename_i rs hr
+        split at h
+        · cases h
+        · rename_i cls hc
+          simp only [bind, Except.bind, pure, Except.pure] at h
+          split at h
+          · cases h
+          · rename_i s2 hf
+            cases h
+            exact ⟨_, .create b par attr nid pid ty scal kids rs cr sg fx cls s2 hp hr hk hc hf⟩
 
-/-- the invariant of create/extend runs: fragment, agreement with `pm`, done + pending = `c` -/
-structure Inv (dflt : List (Str × Str)) (st : Prop) (pm : Str → Option Id) (c : (Eff → Nat) → Nat)
-    (s : State) : Prop where
-  ce : s.ce st pm
-  ag : Agrees st s.ps pm
-  cons : ∀ F, (st ∨ EdgeBlind F) → Quiet F s.ps → s.doneN F + s.pendN dflt pm F = c F
-
-theorem worksOf_ce {st pm} (par : Id) (i : Instr) (h : i.ce st pm) : ∀ w ∈ worksOf par i, w.ce st pm := by
-  obtain ⟨_, h1, h2, h3, h4, h5⟩ := h
-  intro w hw
-  simp only [worksOf, h3, h4, h5, List.map_nil, List.append_nil, List.mem_append, List.mem_singleton] at hw
-  rcases hw with (hw | hw) | rfl
-  · exact kidsCe_works st pm par _ h1 w hw
-  · exact kidsCe_works st pm par _ h2 w hw
-  · rfl
-
-theorem worksOf_effN {st pm} (dflt F) (par : Id) (i : Instr) (h : i.ce st pm) :
-    sumBy (Work.effN dflt pm F) (worksOf par i) = kidsEffN dflt pm F par i.create + kidsEffN dflt pm F par i.ext := by
-  obtain ⟨_, h1, h2, h3, h4, h5⟩ := h
-  simp [worksOf, h3, h4, h5, sumBy_append, sumBy, kidsEffN_eq, Work.effN]
-
-theorem Item.effN_blind {dflt pm F} (hF : EdgeBlind F) (par par' : Id) (attr : Str) (x : Item) :
-    x.effN dflt pm F par attr = x.effN dflt pm F par' attr := by
-  cases x with
-  | obj nid pid ty sc kids => simp [Item.effN, hF _ _ _]
-  | ref v => simp only [Item.effN, hF _ _ _]
-
-theorem itemsEffN_blind {dflt pm F} (hF : EdgeBlind F) (par par' : Id) (attr : Str) (l : List Item) :
-    itemsEffN dflt pm F par attr l = itemsEffN dflt pm F par' attr l := by
-  induction l with
-  | nil => simp [itemsEffN]
-  | cons x t ih => simp [itemsEffN, ih, Item.effN_blind hF par par' attr x]
-
-theorem kidsEffN_blind {dflt pm F} (hF : EdgeBlind F) (par par' : Id) (kids : List (Str × List Item)) :
-    kidsEffN dflt pm F par kids = kidsEffN dflt pm F par' kids := by
-  induction kids with
-  | nil => simp [kidsEffN]
-  | cons x t ih => obtain ⟨k, l⟩ := x; simp [kidsEffN, ih, itemsEffN_blind hF par par' k l]
-
-theorem Quiet.mono {F ps ps'} (hg : Grows ps ps') (h : Quiet F ps') : Quiet F ps :=
-  fun p i hp => h p i (hg p i hp)
-
-theorem step_ce {dflt st pm c s s'} (hinv : Inv dflt st pm c s) (h : step dflt s = .ok (some s')) :
-    Inv dflt st pm c s' ∧ Grows s.ps s'.ps := by
-  obtain ⟨hce, hag, hcons⟩ := hinv
-  have hgrefl : Grows s.ps s.ps := fun _ _ h => h
+/-- on a state of the create/extend fragment, `step` is one of the named transitions -/
+theorem step_ceStep {mm P Q s s'} (hs : s.all P Q) (h : step mm s = .ok (some s')) : ∃ c, CEStep mm s c s' := by
   unfold step at h
   split at h
   · rename_i w rest hagd
-    cases hw : stepWork dflt { s with agenda := rest } w with
+    cases hw : stepWork mm { s with agenda := rest } w with
     | error e => simp [hw, Except.map] at h
     | ok s2 =>
       simp [hw, Except.map] at h
       subst h
-      have hwce : w.ce st pm := hce.1 w (by simp [hagd])
-      have hrest : ∀ w' ∈ rest, w'.ce st pm := fun w' hw' => hce.1 w' (by simp [hagd, hw'])
+      have hwa : w.all P := hs.1 w (by simp [hagd])
       cases w with
       | items par attr l =>
         cases l with
         | nil =>
-          cases hw
-          refine ⟨⟨⟨hrest, hce.2.1, hce.2.2⟩, hag, ?_⟩, hgrefl⟩
-          intro F hF hq
-          have := hcons F hF hq
-          simp [State.doneN, State.pendN, hagd, sumBy, Work.effN, itemsEffN] at *
-          omega
+          have := checkTarget_items_nil hw
+          subst this
+          exact ⟨_, .nil par attr rest hagd⟩
         | cons x l =>
           simp only [stepWork] at hw
-          have hs1 : State.ce st pm { s with agenda := Work.items par attr l :: rest } := by
-            refine ⟨?_, hce.2.1, hce.2.2⟩
-            intro w' hw'
-            simp only [List.mem_cons] at hw'
-            rcases hw' with rfl | hw'
-            · exact hwce.2
-            · exact hrest w' hw'
-          obtain ⟨a, b, hg, c'⟩ := stepItem_ce (dflt := dflt) hwce.1 hs1 hag hw
-          refine ⟨⟨a, b, ?_⟩, hg⟩
-          intro F hF hq
-          have hq0 : Quiet F s.ps := Quiet.mono hg hq
-          have := hcons F hF hq0
-          have := c' F hF hq0
-          simp [State.doneN, State.pendN, hagd, sumBy, Work.effN, itemsEffN] at *
-          omega
+          exact stepItem_ceStep (.agenda l rest hagd) hw
       | sets par l =>
-        have : l = [] := hwce
+        have : l = [] := hwa
         subst this
         cases hw
-        refine ⟨⟨⟨hrest, hce.2.1, hce.2.2⟩, hag, ?_⟩, hgrefl⟩
-        intro F hF hq
-        have := hcons F hF hq
-        simp [State.doneN, State.pendN, hagd, sumBy, Work.effN] at *
-        omega
-      | syncs _ _ _ => exact hwce.elim
-      | resync _ _ _ _ _ _ => exact hwce.elim
-      | fulfil _ _ => exact hwce.elim
-      | dels _ _ _ => exact hwce.elim
+        exact ⟨_, .setsNil par rest hagd⟩
+      | syncs _ _ _ => exact hwa.elim
+      | resync _ _ _ _ _ _ => exact hwa.elim
+      | fulfil _ _ => exact hwa.elim
+      | dels _ _ _ => exact hwa.elim
   · rename_i hagd
     split at h
     · cases h
     · rename_i a q hq
-      cases hw : startAction dflt { s with queue := q } a with
+      cases hw : startAction mm { s with queue := q } a with
       | error e => simp [hw, Except.map] at h
       | ok s2 =>
         simp [hw, Except.map] at h
         subst h
-        have hace : a.ce st pm := hce.2.1 a (by simp [hq])
-        have hs1 : State.ce st pm { s with queue := q } :=
-          ⟨hce.1, fun a' ha' => hce.2.1 a' (by simp [hq, ha']), hce.2.2⟩
+        have haa : a.all P Q := hs.2.1 a (by simp [hq])
         cases a with
         | whole i =>
-          obtain ⟨at', hpar⟩ := hace.1
-          simp only [startAction, hpar, resolveVal] at hw
+          simp only [startAction] at hw
           split at hw
-          · cases hw
-            refine ⟨⟨⟨hs1.1, hs1.2.1, ?_⟩, hag, ?_⟩, hgrefl⟩
-            · intro e he
-              simp only [State.defer, List.mem_append, List.mem_singleton] at he
-              rcases he with he | rfl
-              · exact hce.2.2 e he
-              · exact hace
-            · intro F hF hqt
-              have := hcons F hF hqt
-              simp [State.defer, State.doneN, State.pendN, hq, sumBy_append, sumBy, Action.effN] at *
-              omega
+          · rename_i p hr; cases hw; exact ⟨_, .deferWhole i q p hagd hq hr⟩
           · cases hw
           · cases hw
-          · rename_i par hpar'
-            cases hw
-            refine ⟨⟨⟨worksOf_ce par i hace, hs1.2.1, hs1.2.2⟩, hag, ?_⟩, hgrefl⟩
-            intro F hF hqt
-            have := hcons F hF hqt
-            have hu : atomUse F at' = 0 := resolveAtom_quiet hqt hpar'
-            have hwk := worksOf_effN dflt F par i hace
-            rcases hF with hst | heb
-            · have hid := resolveAtom_id (fun _ => hag hst) hpar'
-              simp [State.doneN, State.pendN, hq, hagd, sumBy, Action.effN, Instr.effN, hpar, valId, valUse, hu, hid, hwk] at *
-              omega
-            · have e1 := kidsEffN_blind (dflt := dflt) (pm := pm) heb par ((valId pm (Val.atom at')).getD 0) i.create
-              have e2 := kidsEffN_blind (dflt := dflt) (pm := pm) heb par ((valId pm (Val.atom at')).getD 0) i.ext
-              simp [State.doneN, State.pendN, hq, hagd, sumBy, Action.effN, Instr.effN, hpar, valUse, hu, hwk, e1, e2] at *
-              omega
+          · rename_i par hr; cases hw; exact ⟨_, .expand i q par hagd hq hr⟩
         | piece par pc =>
           cases pc with
-          | item attr x =>
-            obtain ⟨a, b, hg, c'⟩ := stepItem_ce (dflt := dflt) hace hs1 hag hw
-            refine ⟨⟨a, b, ?_⟩, hg⟩
-            intro F hF hqt
-            have hq0 : Quiet F s.ps := Quiet.mono hg hqt
-            have := hcons F hF hq0
-            have := c' F hF hq0
-            simp [State.doneN, State.pendN, hq, sumBy, Action.effN] at *
-            omega
-          | setE _ _ => exact hace.elim
-          | sync _ _ => exact hace.elim
-          | resync _ _ _ _ _ => exact hace.elim
+          | item attr x => exact stepItem_ceStep (.queue q hagd hq) hw
+          | setE _ _ => exact haa.elim
+          | sync _ _ => exact haa.elim
+          | resync _ _ _ _ _ => exact haa.elim
 
-theorem step_none {dflt s} (h : step dflt s = .ok none) : s.agenda = [] ∧ s.queue = [] := by
+theorem step_none {mm s} (h : step mm s = .ok none) : s.agenda = [] ∧ s.queue = [] := by
   unfold step at h
   split at h
   · simp only [Except.map] at h
@@ -519,180 +373,165 @@ theorem step_none {dflt s} (h : step dflt s = .ok none) : s.agenda = [] ∧ s.qu
     · simp only [Except.map] at h
       split at h <;> simp at h
 
-theorem run_ce {dflt st pm c} : ∀ (n : Nat) (s r : State), Inv dflt st pm c s → run dflt n s = some (.ok r) →
-    Inv dflt st pm c r ∧ r.agenda = [] ∧ r.queue = [] ∧ Grows s.ps r.ps
-  | 0, _, _, _, h => by simp [run] at h
-  | n + 1, s, r, hinv, h => by
-    unfold run at h
+/-! ## `State.all` along a transition, forwards and backwards -/
+
+theorem Pop.all_iff {P Q s par attr x b} (hp : Pop s par attr x b) :
+    s.all P Q ↔ x.all P ∧ b.all P Q := by
+  cases hp with
+  | agenda l rest ha =>
+    simp only [State.all, ha, List.mem_cons, forall_eq_or_imp, Work.all, itemsAll]
+    constructor
+    · rintro ⟨⟨⟨hx, hl⟩, hr⟩, hq, hd⟩; exact ⟨hx, ⟨hl, hr⟩, hq, hd⟩
+    · rintro ⟨hx, ⟨hl, hr⟩, hq, hd⟩; exact ⟨⟨⟨hx, hl⟩, hr⟩, hq, hd⟩
+  | queue q ha hq =>
+    simp only [State.all, hq, List.mem_cons, forall_eq_or_imp, Action.all]
+    constructor
+    · rintro ⟨hw, ⟨hx, hr⟩, hd⟩; exact ⟨hx, hw, hr, hd⟩
+    · rintro ⟨hx, hw, hr, hd⟩; exact ⟨hw, ⟨hx, hr⟩, hd⟩
+
+theorem Pop.same {s par attr x b} (hp : Pop s par attr x b) :
+    b.g = s.g ∧ b.ps = s.ps ∧ b.deferred = s.deferred := by
+  cases hp <;> exact ⟨rfl, rfl, rfl⟩
+
+theorem defer_all_iff {P Q} (s : State) (p : Str) (a : Action) :
+    (s.defer p a).all P Q ↔ a.all P Q ∧ s.all P Q := by
+  simp only [State.all, State.defer, List.mem_append, List.mem_singleton]
+  constructor
+  · rintro ⟨hw, hq, hd⟩
+    exact ⟨hd (p, a) (Or.inr rfl), hw, hq, fun e he => hd e (Or.inl he)⟩
+  · rintro ⟨ha, hw, hq, hd⟩
+    refine ⟨hw, hq, ?_⟩
+    rintro e (he | rfl)
+    · exact hd e he
+    · exact ha
+
+theorem fulfil_all_iff {P Q} {s s' : State} {p i} (h : s.fulfil p i = .ok s') :
+    s'.all P Q ↔ s.all P Q := by
+  unfold State.fulfil at h
+  split at h
+  · cases h
+  · cases h
+    simp only [State.all, List.mem_append, List.mem_map, List.mem_filter]
+    constructor
+    · rintro ⟨hw, hq, hd⟩
+      refine ⟨hw, fun a ha => hq a (Or.inl ha), ?_⟩
+      intro e he
+      by_cases hk : e.1 == p
+      · exact hq e.2 (Or.inr ⟨e, ⟨he, hk⟩, rfl⟩)
+      · exact hd e ⟨he, by simpa using hk⟩
+    · rintro ⟨hw, hq, hd⟩
+      refine ⟨hw, ?_, fun e he => hd e he.1⟩
+      rintro a (ha | ⟨e, ⟨he, _⟩, rfl⟩)
+      · exact hq a ha
+      · exact hd e he
+
+theorem fulfilOpt_all_iff {P Q} {s s' : State} {pid i} (h : s.fulfilOpt pid i = .ok s') :
+    s'.all P Q ↔ s.all P Q := by
+  cases pid with
+  | none => simp [State.fulfilOpt] at h; subst h; rfl
+  | some p => exact fulfil_all_iff h
+
+theorem fulfilOpt_same {s s' : State} {pid i} (h : s.fulfilOpt pid i = .ok s') :
+    s'.agenda = s.agenda ∧ s'.g = s.g := by
+  cases pid with
+  | none => simp [State.fulfilOpt] at h; subst h; exact ⟨rfl, rfl⟩
+  | some p =>
+    simp only [State.fulfilOpt, State.fulfil] at h
     split at h
-    · simp at h
-    · rename_i hs
-      simp at h; subst h
-      exact ⟨hinv, (step_none hs).1, (step_none hs).2, fun _ _ h => h⟩
-    · rename_i s' hs
-      obtain ⟨hinv', hg⟩ := step_ce hinv hs
-      obtain ⟨a, b, c', d⟩ := run_ce n s' r hinv' h
-      exact ⟨a, b, c', fun p i hp => d p i (hg p i hp)⟩
+    · cases h
+    · cases h; exact ⟨rfl, rfl⟩
 
-/-- weight of a result: bindings, list memberships, objects -/
-def resN (F : Eff → Nat) (g : Graph) (ps : Promises) : Nat :=
-  sumBy (fun e => F (.bind e.1 e.2)) ps + sumBy (fun e => F (.edge e.1 e.2.1 e.2.2)) g.edges +
-    sumBy (fun e => F (.obj e.1 e.2)) g.objs
+/-- what a transition needs of the entry it consumes for `State.all` to hold before it (the nested
+entries and everything else pending are taken from the state after it) -/
+def Consumed.Head (P : Item → Prop) (Q : Instr → Prop) : Consumed → Prop
+  | .nothing => True
+  | .item x => P x
+  | .instr i => Q i ∧ i.set = [] ∧ i.sync = [] ∧ i.del = []
 
-/-- weight of the effects a document describes -/
-def docN (dflt : List (Str × Str)) (pm : Str → Option Id) (F : Eff → Nat) (doc : List Instr) : Nat :=
-  sumBy (Instr.effN dflt pm F) doc
+theorem State.all_g {P Q} (s : State) (g : Graph) : ({ s with g := g } : State).all P Q ↔ s.all P Q := Iff.rfl
 
-/-- the documents of the create/extend fragment -/
-def DocCE (st : Prop) (pm : Str → Option Id) (doc : List Instr) : Prop := ∀ i ∈ doc, i.ce st pm
+/-- forwards: everything pending after a transition was pending before it -/
+theorem CEStep.all_fwd {mm P Q s c s'} (h : CEStep mm s c s') (hs : s.all P Q) : s'.all P Q := by
+  cases h with
+  | nil par attr rest ha =>
+    exact ⟨fun w hw => hs.1 w (by simp [ha, hw]), hs.2.1, hs.2.2⟩
+  | setsNil par rest ha =>
+    exact ⟨fun w hw => hs.1 w (by simp [ha, hw]), hs.2.1, hs.2.2⟩
+  | deferRef b par attr v p hp hr =>
+    obtain ⟨hx, hb⟩ := hp.all_iff.mp hs
+    exact (defer_all_iff b p _).mpr ⟨hx, hb⟩
+  | deferObj b par attr nid pid ty scal kids p hp hr =>
+    obtain ⟨hx, hb⟩ := hp.all_iff.mp hs
+    exact (defer_all_iff b p _).mpr ⟨hx, hb⟩
+  | append b par attr v i hp hr => exact (hp.all_iff.mp hs).2
+  | single b par attr nid str cr k fx cls hp hk hc => exact (hp.all_iff.mp hs).2
+  | create b par attr nid pid ty scal kids rs cr sg fx cls s2 hp hr hk hc hf =>
+    obtain ⟨hx, hb⟩ := hp.all_iff.mp hs
+    have h2 : s2.all P Q := (fulfilOpt_all_iff hf).mpr hb
+    simp only [Item.all] at hx
+    refine ⟨?_, h2.2.1, h2.2.2⟩
+    intro w hw
+    simp only [List.mem_append] at hw
+    rcases hw with hw | hw
+    · exact kidsAll_works nid kids hx.2 w hw
+    · exact h2.1 w hw
+  | deferWhole i q p ha hq hr =>
+    have hi : (Action.whole i).all P Q := hs.2.1 (.whole i) (by simp [hq])
+    exact (defer_all_iff _ p _).mpr ⟨hi, hs.1, fun a ha' => hs.2.1 a (by simp [hq, ha']), hs.2.2⟩
+  | expand i q par ha hq hr =>
+    have hi : i.all P Q := hs.2.1 (.whole i) (by simp [hq])
+    exact ⟨worksOf_all par i hi, fun a ha' => hs.2.1 a (by simp [hq, ha']), hs.2.2⟩
 
-theorem init_inv {dflt st pm} (g : Graph) (doc : List Instr) (hdoc : DocCE st pm doc) :
-    Inv dflt st pm (fun F => resN F g [] + docN dflt pm F doc) (init g doc) := by
-  refine ⟨⟨by simp [init], ?_, by simp [init]⟩, ?_, ?_⟩
-  · intro a ha
-    simp only [init, List.mem_map] at ha
-    obtain ⟨i, hi, rfl⟩ := ha
-    exact hdoc i hi
-  · intro _ p i h; simp [init] at h
-  · intro F _ _
-    simp [init, State.doneN, State.pendN, resN, docN, sumBy, sumBy_map, Action.effN]
-
-/-- **conservation**: what a successful run has done is exactly what the document describes -/
-theorem apply_ce {dflt st pm g doc g' ps'} (hdoc : DocCE st pm doc) (h : apply dflt g doc = .ok (g', ps')) :
-    ∀ F, (st ∨ EdgeBlind F) → Quiet F ps' → resN F g' ps' = resN F g [] + docN dflt pm F doc := by
-  unfold apply at h
-  split at h
-  · cases h
-  · rename_i r hr
-    cases r with
-    | error e => simp [Except.bind] at h
-    | ok sf =>
-      simp only [Except.bind] at h
-      obtain ⟨hinv, ha, hq, _⟩ := run_ce _ _ _ (init_inv (dflt := dflt) g doc hdoc) hr
-      unfold finish at h
-      split at h
-      · rename_i hd
-        cases h
-        intro F hF hqt
-        have := hinv.cons F hF hqt
-        simpa [State.doneN, State.pendN, ha, hq, hd, sumBy, resN] using this
-      · cases h
-
-
-
-theorem sumBy_perm {α : Type} (f : α → Nat) {l l' : List α} (h : l.Perm l') : sumBy f l = sumBy f l' := by
-  induction h with
-  | nil => rfl
-  | cons x _ ih => simp [sumBy, ih]
-  | swap x y l => simp [sumBy]; omega
-  | trans _ _ ih1 ih2 => exact ih1.trans ih2
-
-/-- indicator weight of one effect -/
-def ind (e : Eff) : Eff → Nat := fun e' => if e' = e then 1 else 0
-
-theorem sumBy_count {α : Type} [BEq α] [LawfulBEq α] (a : α) (l : List α) :
-    sumBy (fun x => if x == a then 1 else 0) l = l.count a := by
-  induction l with
-  | nil => simp [sumBy]
-  | cons x t ih =>
-    simp only [sumBy, ih, List.count_cons]
-    by_cases h : x == a <;> simp [h] <;> omega
-
-theorem sumBy_zero {α : Type} (l : List α) : sumBy (fun _ => 0) l = 0 := by
-  induction l with
-  | nil => rfl
-  | cons x t ih => simp [sumBy, ih]
-
-theorem resN_bind (g : Graph) (ps : Promises) (p : Str) (i : Id) :
-    resN (ind (.bind p i)) g ps = ps.count (p, i) := by
-  have h1 : (fun e : Str × Id => ind (.bind p i) (.bind e.1 e.2)) = fun e => if e == (p, i) then 1 else 0 := by
-    funext e; obtain ⟨a, b⟩ := e; simp [ind]
-  unfold resN
-  rw [h1, sumBy_count]
-  simp [ind, sumBy_zero]
-
-theorem resN_edge (g : Graph) (ps : Promises) (o : Id) (a : Str) (m : Id) :
-    resN (ind (.edge o a m)) g ps = g.edges.count (o, a, m) := by
-  have h1 : (fun e : Id × Str × Id => ind (.edge o a m) (.edge e.1 e.2.1 e.2.2)) = fun e => if e == (o, a, m) then 1 else 0 := by
-    funext e; obtain ⟨x, y, z⟩ := e; simp [ind]
-  unfold resN
-  rw [h1, sumBy_count]
-  simp [ind, sumBy_zero]
-
-theorem resN_obj (g : Graph) (ps : Promises) (i : Id) (c : Str) :
-    resN (ind (.obj i c)) g ps = g.objs.count (i, c) := by
-  have h1 : (fun e : Id × Str => ind (.obj i c) (.obj e.1 e.2)) = fun e => if e == (i, c) then 1 else 0 := by
-    funext e; obtain ⟨x, y⟩ := e; simp [ind]
-  unfold resN
-  rw [h1, sumBy_count]
-  simp [ind, sumBy_zero]
-
-theorem quiet_of_not_use {e : Eff} (ps : Promises) (h : ∀ p, e ≠ .use p) : Quiet (ind e) ps := by
-  intro p _ _
-  simp only [ind]
-  split
-  · rename_i he; exact absurd he.symm (h p)
-  · rfl
-
-theorem docN_perm {dflt pm F} {doc doc' : List Instr} (h : doc.Perm doc') :
-    docN dflt pm F doc = docN dflt pm F doc' := sumBy_perm _ h
-
-theorem apply_ok_run {dflt g doc g' ps'} (h : apply dflt g doc = .ok (g', ps')) :
-    ∃ n sf, run dflt n (init g doc) = some (.ok sf) ∧ sf.g = g' ∧ sf.ps = ps' ∧ sf.deferred = [] := by
-  unfold apply at h
-  split at h
-  · cases h
-  · rename_i r hr
-    cases r with
-    | error e => simp [Except.bind] at h
-    | ok sf =>
-      simp only [Except.bind, finish] at h
-      split at h
-      · rename_i hd; cases h; exact ⟨_, sf, hr, rfl, rfl, hd⟩
-      · cases h
-
-theorem apply_ok_nodup {dflt g doc g' ps'} (h : apply dflt g doc = .ok (g', ps')) :
-    (ps'.map Prod.fst).Nodup := by
-  obtain ⟨n, sf, hr, _, hps, _⟩ := apply_ok_run h
-  have := (run_ps n _ sf hr).2 (by simp [init])
-  rwa [hps] at this
-
-theorem mem_iff_lookup (l : Promises) (hn : (l.map Prod.fst).Nodup) (p : Str) (i : Id) :
-    (p, i) ∈ l ↔ l.lookup p = some i := by
-  induction l with
-  | nil => simp
-  | cons x t ih =>
-    obtain ⟨k, v⟩ := x
-    simp only [List.map_cons, List.nodup_cons] at hn
-    simp only [List.mem_cons, Prod.mk.injEq, List.lookup]
-    by_cases hk : p = k
-    · subst hk
-      simp only [BEq.rfl, true_and]
-      constructor
-      · rintro (rfl | hm)
-        · rfl
-        · exact absurd (List.mem_map_of_mem (f := Prod.fst) hm) hn.1
-      · intro h; cases h; exact Or.inl rfl
-    · have : (p == k) = false := by simp [hk]
-      simp [this, hk, ih hn.2]
-
-theorem lookup_of_perm {l l' : Promises} (hp : l.Perm l') (hn : (l.map Prod.fst).Nodup)
-    (hn' : (l'.map Prod.fst).Nodup) (p : Str) : l.lookup p = l'.lookup p := by
-  cases h : l.lookup p with
-  | some i =>
-    have := (mem_iff_lookup l hn p i).mpr h
-    exact ((mem_iff_lookup l' hn' p i).mp (hp.mem_iff.mp this)).symm
-  | none =>
-    cases h' : l'.lookup p with
-    | none => rfl
-    | some j =>
-      have := (mem_iff_lookup l' hn' p j).mpr h'
-      have := (mem_iff_lookup l hn p j).mp (hp.mem_iff.mpr this)
-      rw [h] at this; cases this
-
-theorem members_perm {g g' : Graph} (h : g.edges.Perm g'.edges) (o : Id) (a : Str) :
-    (g.members o a).Perm (g'.members o a) := by
-  unfold Graph.members
-  exact (h.filter _).map _
+/-- backwards: if `P`/`Q` hold for everything pending after a transition and for the head of the entry
+the transition consumed, they held for everything pending before it -/
+theorem CEStep.all_bwd {mm P Q s c s'} (h : CEStep mm s c s') (hh : c.Head P Q) (hs : s'.all P Q) : s.all P Q := by
+  cases h with
+  | nil par attr rest ha =>
+    refine ⟨?_, hs.2.1, hs.2.2⟩
+    intro w hw
+    simp only [ha, List.mem_cons] at hw
+    rcases hw with rfl | hw
+    · trivial
+    · exact hs.1 w hw
+  | setsNil par rest ha =>
+    refine ⟨?_, hs.2.1, hs.2.2⟩
+    intro w hw
+    simp only [ha, List.mem_cons] at hw
+    rcases hw with rfl | hw
+    · rfl
+    · exact hs.1 w hw
+  | deferRef b par attr v p hp hr =>
+    obtain ⟨hx, hb⟩ := (defer_all_iff b p _).mp hs
+    exact hp.all_iff.mpr ⟨hx, hb⟩
+  | deferObj b par attr nid pid ty scal kids p hp hr =>
+    obtain ⟨hx, hb⟩ := (defer_all_iff b p _).mp hs
+    exact hp.all_iff.mpr ⟨hx, hb⟩
+  | append b par attr v i hp hr => exact hp.all_iff.mpr ⟨hh, hs⟩
+  | single b par attr nid str cr k fx cls hp hk hc => exact hp.all_iff.mpr ⟨hh, hs⟩
+  | create b par attr nid pid ty scal kids rs cr sg fx cls s2 hp hr hk hc hf =>
+    have hA := (fulfilOpt_same hf).1
+    have h2 : s2.all P Q := by
+      refine ⟨fun w hw => hs.1 w ?_, hs.2.1, hs.2.2⟩
+      simp only [List.mem_append]; exact Or.inr hw
+    have hb : b.all P Q := (fulfilOpt_all_iff hf).mp h2
+    refine hp.all_iff.mpr ⟨?_, hb⟩
+    simp only [Item.all]
+    refine ⟨hh, works_kidsAll nid kids (fun w hw => hs.1 w ?_)⟩
+    simp only [List.mem_append]; exact Or.inl hw
+  | deferWhole i q p ha hq hr =>
+    obtain ⟨hx, hb⟩ := (defer_all_iff _ p _).mp hs
+    refine ⟨hb.1, ?_, hb.2.2⟩
+    intro a ha'
+    simp only [hq, List.mem_cons] at ha'
+    rcases ha' with rfl | ha'
+    · exact hx
+    · exact hb.2.1 a ha'
+  | expand i q par ha hq hr =>
+    refine ⟨by simp [ha], ?_, hs.2.2⟩
+    intro a ha'
+    simp only [hq, List.mem_cons] at ha'
+    rcases ha' with rfl | ha'
+    · exact all_of_worksOf par i hh.1 hh.2.1 hh.2.2.1 hh.2.2.2 hs.1
+    · exact hs.2.1 a ha'
 
 end Capella.Decl
